@@ -314,7 +314,7 @@ structure TimeF where
   nano : Nat
   /-- `t.Unix() - epoch.Unix()`: whole seconds since serial 0 of the workbook's date system -/
   elapsedSec : Int
-  deriving Repr
+  deriving Repr, DecidableEq
 
 structure Locale where
   ok : Bool
@@ -339,7 +339,7 @@ structure DateIn where
   loc0 : Str → Locale
   loc1 : Str → Locale
 
-def amPm : List Str := [bs "AM/PM", bs "A/P", [Char.ofNat 0xe4, Char.ofNat 0xb8, Char.ofNat 0x8a, Char.ofNat 0xe5, Char.ofNat 0x8d, Char.ofNat 0x88, '/', Char.ofNat 0xe4, Char.ofNat 0xb8, Char.ofNat 0x8b, Char.ofNat 0xe5, Char.ofNat 0x8d, Char.ofNat 0x88]]
+def amPm : List Str := [['A', 'M', '/', 'P', 'M'], ['A', '/', 'P'], [Char.ofNat 0xe4, Char.ofNat 0xb8, Char.ofNat 0x8a, Char.ofNat 0xe5, Char.ofNat 0x8d, Char.ofNat 0x88, '/', Char.ofNat 0xe4, Char.ofNat 0xb8, Char.ofNat 0x8b, Char.ofNat 0xe5, Char.ofNat 0x8d, Char.ofNat 0x88]]
 
 structure DtSt where
   result : Str := []
